@@ -377,7 +377,7 @@ async def request_handler(
     try:
         headers_map = dict(headers)
 
-        if headers_map[':method'] != 'POST':
+        if headers_map.get(':method') != 'POST':
             await _abort(_stream, 405)
             return
 
@@ -402,8 +402,8 @@ async def request_handler(
                          'Required "te: trailers" header is missing')
             return
 
-        method_name = headers_map[':path']
-        method = mapping.get(method_name)
+        method_name = headers_map.get(':path')
+        method = mapping.get(method_name)  # type: ignore[arg-type]
         if method is None:
             await _abort(_stream, 200, Status.UNIMPLEMENTED,
                          'Method not found')
@@ -416,7 +416,12 @@ async def request_handler(
                          'Invalid grpc-timeout header')
             return
 
-        metadata = decode_metadata(headers)
+        try:
+            metadata = decode_metadata(headers)
+        except ValueError:
+            await _abort(_stream, 200, Status.UNKNOWN,
+                         'Invalid metadata')
+            return
         user_agent = headers_map.get('user-agent')
 
         async with Stream(
